@@ -25,11 +25,13 @@ Lemma dist_ok_free k a : dist_ok k a -> owner a <> KRd \/ ~ is_dist_data (data a
 Proof.
   intros _ _ a' O _ d t E. rewrite E in O. destruct O as [-> O]. unfold wf_dist. rewrite O. exact wf_lv0.
 Qed.
-Lemma dist_ok_dist k a d t : dist_ok k a -> owner a = KRd -> data a = DDist d t -> dist_key dist_ok k d t.
+Lemma dist_ok_dist k a d t : dist_ok k a -> owner a = KRd -> data a = DDist d t -> dist_key dist_ok lv_step k d t.
 Proof.
   intros Ha Ho Hd a' d' t' _ S _ d'' t'' E. cbn in E. injection E as <- <-.
   eapply lv_step_wf; [exact (Ha Ho d t Hd)|exact S].
 Qed.
+Ltac ls_hyps :=
+  first [exact ls_same|exact ls_debt_zero|exact ls_debt_alloc|exact ls_rew_alloc|exact ls_wo_alloc|exact ls_pay|exact ls_wo|exact ls_dist].
 Lemma dist_ok_empty k : dist_ok k empty_acct.
 Proof. intros Ho. discriminate Ho. Qed.
 
@@ -37,17 +39,17 @@ Proof. intros Ho. discriminate Ho. Qed.
 Theorem ledger_ok_exec_data prog d ms h sib W W' : exec_data prog d ms h sib W = Ok W' -> ledger_ok W -> ledger_ok W'.
 Proof.
   intros H HI. apply ledger_ok_inv. apply ledger_ok_inv in HI.
-  exact (exec_data_inv dist_ok dist_ok_ext dist_ok_free dist_ok_dist d prog ms h sib W W' H HI).
+  eapply (exec_data_inv dist_ok lv_step); [exact dist_ok_ext|exact dist_ok_free|exact dist_ok_dist|ls_hyps ..|exact H|exact HI].
 Qed.
 Theorem ledger_ok_rd_process cx W ix W' : rd_process cx W ix = Ok W' -> ledger_ok W -> ledger_ok W'.
 Proof.
   intros H HI. apply ledger_ok_inv. apply ledger_ok_inv in HI.
-  exact (rd_process_inv dist_ok dist_ok_ext dist_ok_free dist_ok_dist cx W ix W' H HI).
+  eapply (rd_process_inv dist_ok lv_step); [exact dist_ok_ext|exact dist_ok_free|exact dist_ok_dist|ls_hyps ..|exact H|exact HI].
 Qed.
 Theorem ledger_ok_exec_ixs t ixs prev W W' : exec_ixs t ixs prev W = Ok W' -> ledger_ok W -> ledger_ok W'.
 Proof.
   intros H HI. apply ledger_ok_inv. apply ledger_ok_inv in HI.
-  exact (exec_ixs_inv dist_ok dist_ok_ext dist_ok_free dist_ok_dist t ixs prev W W' H HI).
+  eapply (exec_ixs_inv dist_ok lv_step); [exact dist_ok_ext|exact dist_ok_free|exact dist_ok_dist|ls_hyps ..|exact H|exact HI].
 Qed.
 Lemma ledger_ok_purge W : ledger_ok W -> ledger_ok (purge W).
 Proof.
@@ -61,7 +63,9 @@ Theorem wf_dist_tx W t W' ok :
   (forall k d tl, owner (get W' k) = KRd -> data (get W' k) = DDist d tl -> wf_dist d tl).
 Proof.
   intros HI H. change (ledger_ok W'). change (ledger_ok W) in HI. apply ledger_ok_inv in HI.
-  destruct (exec_tx_cases dist_ok dist_ok_ext dist_ok_free dist_ok_dist W t W' ok H HI) as [->|(W1 & H1 & ->)].
+  assert (C : W' = W \/ exists W1, inv dist_ok W1 /\ W' = purge W1)
+    by (eapply (exec_tx_cases dist_ok lv_step); [exact dist_ok_ext|exact dist_ok_free|exact dist_ok_dist|ls_hyps ..|exact H|exact HI]).
+  destruct C as [->|(W1 & H1 & ->)].
   - apply ledger_ok_inv. exact HI.
   - apply ledger_ok_purge. apply ledger_ok_inv. exact H1.
 Qed.
@@ -135,7 +139,7 @@ Proof.
   destruct Hn as [Hn|Hn]; [exact (Hn Ho)|apply Hn; rewrite Hd; do 2 eexists; reflexivity].
 Qed.
 Lemma mono_at_dist k0 v0 t0 k a d t :
-  mono_at k0 v0 t0 k a -> owner a = KRd -> data a = DDist d t -> dist_key (mono_at k0 v0 t0) k d t.
+  mono_at k0 v0 t0 k a -> owner a = KRd -> data a = DDist d t -> dist_key (mono_at k0 v0 t0) lv_step k d t.
 Proof.
   intros Ha Ho Hd a' d' t' Ha' S ->. destruct (Ha eq_refl) as (_ & d1 & t1 & Hd1 & Hle). destruct (Ha' eq_refl) as (Ho' & _).
   rewrite Hd in Hd1. injection Hd1 as <- <-. split; [exact Ho'|]. exists d', t'. split; [reflexivity|].
@@ -153,22 +157,31 @@ Theorem bits_monotone_exec_data prog i ms h sib W W' k d t :
   exec_data prog i ms h sib W = Ok W' -> owner (get W k) = KRd -> data (get W k) = DDist d t -> extends W' k d t.
 Proof.
   intros H Ho Hd.
-  exact (exec_data_inv _ (mono_at_ext k (lv d) t) (mono_at_free k (lv d) t) (mono_at_dist k (lv d) t) i prog ms h sib W W' H
-           (mono_at_start W k d t Ho Hd) k eq_refl).
+  assert (I' : inv (mono_at k (lv d) t) W')
+    by (eapply (exec_data_inv (mono_at k (lv d) t) lv_step);
+        [exact (mono_at_ext k (lv d) t)|exact (mono_at_free k (lv d) t)|exact (mono_at_dist k (lv d) t)|ls_hyps ..|exact H
+        |exact (mono_at_start W k d t Ho Hd)]).
+  exact (I' k eq_refl).
 Qed.
 Theorem bits_monotone_rd_process cx W ix W' k d t :
   rd_process cx W ix = Ok W' -> owner (get W k) = KRd -> data (get W k) = DDist d t -> extends W' k d t.
 Proof.
   intros H Ho Hd.
-  exact (rd_process_inv _ (mono_at_ext k (lv d) t) (mono_at_free k (lv d) t) (mono_at_dist k (lv d) t) cx W ix W' H
-           (mono_at_start W k d t Ho Hd) k eq_refl).
+  assert (I' : inv (mono_at k (lv d) t) W')
+    by (eapply (rd_process_inv (mono_at k (lv d) t) lv_step);
+        [exact (mono_at_ext k (lv d) t)|exact (mono_at_free k (lv d) t)|exact (mono_at_dist k (lv d) t)|ls_hyps ..|exact H
+        |exact (mono_at_start W k d t Ho Hd)]).
+  exact (I' k eq_refl).
 Qed.
 Theorem bits_monotone_exec_ixs tx ixs prev W W' k d t :
   exec_ixs tx ixs prev W = Ok W' -> owner (get W k) = KRd -> data (get W k) = DDist d t -> extends W' k d t.
 Proof.
   intros H Ho Hd.
-  exact (exec_ixs_inv _ (mono_at_ext k (lv d) t) (mono_at_free k (lv d) t) (mono_at_dist k (lv d) t) tx ixs prev W W' H
-           (mono_at_start W k d t Ho Hd) k eq_refl).
+  assert (I' : inv (mono_at k (lv d) t) W')
+    by (eapply (exec_ixs_inv (mono_at k (lv d) t) lv_step);
+        [exact (mono_at_ext k (lv d) t)|exact (mono_at_free k (lv d) t)|exact (mono_at_dist k (lv d) t)|ls_hyps ..|exact H
+        |exact (mono_at_start W k d t Ho Hd)]).
+  exact (I' k eq_refl).
 Qed.
 Lemma extends_refl W k d t : owner (get W k) = KRd -> data (get W k) = DDist d t -> extends W k d t.
 Proof. intros Ho Hd. split; [exact Ho|]. exists d, t. split; [exact Hd|apply lv_le_refl]. Qed.
@@ -181,8 +194,11 @@ Theorem bits_monotone_tx W tx W' ok k d t :
   get W' k = empty_acct \/ extends W' k d t.
 Proof.
   intros H Ho Hd.
-  destruct (exec_tx_cases _ (mono_at_ext k (lv d) t) (mono_at_free k (lv d) t) (mono_at_dist k (lv d) t) W tx W' ok H
-              (mono_at_start W k d t Ho Hd)) as [->|(W1 & H1 & ->)].
+  assert (C : W' = W \/ exists W1, inv (mono_at k (lv d) t) W1 /\ W' = purge W1)
+    by (eapply (exec_tx_cases (mono_at k (lv d) t) lv_step);
+        [exact (mono_at_ext k (lv d) t)|exact (mono_at_free k (lv d) t)|exact (mono_at_dist k (lv d) t)|ls_hyps ..|exact H
+        |exact (mono_at_start W k d t Ho Hd)]).
+  destruct C as [->|(W1 & H1 & ->)].
   - right. apply extends_refl; assumption.
   - unfold extends. rewrite get_purge. destruct (lamports (get W1 k) =? 0); [left; reflexivity|right; exact (H1 k eq_refl)].
 Qed.
@@ -510,6 +526,120 @@ Proof.
 Qed.
 
 (* ------------------------------------------------------------------------------------------------------------------ *)
+(* 4b. bitmaps and counters change ONLY in PayDebt / WriteOff / DistributeRewards                                      *)
+(* Every other instruction of every program (at any CPI depth) leaves every bit of the remaining data and all three     *)
+(* counters of every distribution exactly as they were (it may set a flag and append an all-zero window).  Together     *)
+(* with the exact effects of the three settling instructions (Lemmas_RdSpecs2 / 5: one leaf each) this is the step form  *)
+(* of "counts and bitmaps describe exactly the leaves that were really settled".                                        *)
+
+Definition frozen (v : lview) (t : list N) (v' : lview) (t' : list N) : Prop :=
+  l_pc v' = l_pc v /\ l_wc v' = l_wc v /\ l_dc v' = l_dc v /\
+  (forall pos b, byte_bit t' pos b = byte_bit t pos b) /\ lv_le v t v' t'.
+Lemma frozen_refl v t : frozen v t v t.
+Proof. unfold frozen. split; [reflexivity|]. split; [reflexivity|]. split; [reflexivity|]. split; [reflexivity|apply lv_le_refl]. Qed.
+Lemma frozen_trans v1 t1 v2 t2 v3 t3 : frozen v1 t1 v2 t2 -> frozen v2 t2 v3 t3 -> frozen v1 t1 v3 t3.
+Proof.
+  intros (A1 & A2 & A3 & A4 & A5) (B1 & B2 & B3 & B4 & B5). unfold frozen.
+  split; [congruence|]. split; [congruence|]. split; [congruence|]. split; [intros; rewrite B4; apply A4|eapply lv_le_trans; eassumption].
+Qed.
+Lemma frozen_same v t v' : v' = v -> frozen v t v' t.
+Proof. intros ->. apply frozen_refl. Qed.
+Lemma frozen_debt_zero v t v' : l_df v = false -> v' = v <| l_df := true |> -> frozen v t v' t.
+Proof.
+  intros H E. pose proof (lv_step_le _ _ _ _ (ls_debt_zero v t v' H E)) as L. subst v'. destruct v; unfold frozen; cbn.
+  repeat split; auto; apply L.
+Qed.
+Lemma frozen_debt_alloc v t v' extra : l_df v = false -> extra <= MAX_REALLOC ->
+  v' = v <| l_df := true |> <| l_ds := N.of_nat (length t) |> <| l_de := sat_add two32 (N.of_nat (length t)) extra |> ->
+  frozen v t v' (t ++ zeros extra).
+Proof.
+  intros H Hx E. pose proof (lv_step_le _ _ _ _ (ls_debt_alloc v t v' extra H Hx E)) as L. subst v'. destruct v; unfold frozen; cbn.
+  split; [reflexivity|]. split; [reflexivity|]. split; [reflexivity|]. split; [intros; apply byte_bit_app_zeros|exact L].
+Qed.
+Lemma frozen_rew_alloc v t v' extra : l_rf v = false -> l_df v = true -> extra <= MAX_REALLOC ->
+  v' = v <| l_rf := true |> <| l_rs := N.of_nat (length t) |> <| l_re := sat_add two32 (N.of_nat (length t)) extra |> ->
+  frozen v t v' (t ++ zeros extra).
+Proof.
+  intros H Hd Hx E. pose proof (lv_step_le _ _ _ _ (ls_rew_alloc v t v' extra H Hd Hx E)) as L. subst v'. destruct v; unfold frozen; cbn.
+  split; [reflexivity|]. split; [reflexivity|]. split; [reflexivity|]. split; [intros; apply byte_bit_app_zeros|exact L].
+Qed.
+Lemma frozen_wo_alloc v t v' extra : l_wf v = false -> l_df v = true -> extra <= MAX_REALLOC ->
+  v' = v <| l_wf := true |> <| l_ws := N.of_nat (length t) |> <| l_we := sat_add two32 (N.of_nat (length t)) extra |> ->
+  frozen v t v' (t ++ zeros extra).
+Proof.
+  intros H Hd Hx E. pose proof (lv_step_le _ _ _ _ (ls_wo_alloc v t v' extra H Hd Hx E)) as L. subst v'. destruct v; unfold frozen; cbn.
+  split; [reflexivity|]. split; [reflexivity|]. split; [reflexivity|]. split; [intros; apply byte_bit_app_zeros|exact L].
+Qed.
+Ltac fr_hyps := first [exact frozen_same|exact frozen_debt_zero|exact frozen_debt_alloc|exact frozen_rew_alloc|exact frozen_wo_alloc].
+
+Definition frozen_at (k0 : key) (v0 : lview) (t0 : list N) (k : key) (a : acct) : Prop :=
+  k = k0 -> owner a = KRd /\ exists d t, data a = DDist d t /\ frozen v0 t0 (lv d) t.
+Lemma frozen_at_ext k0 v0 t0 k a a' : owner a' = owner a -> data a' = data a -> frozen_at k0 v0 t0 k a -> frozen_at k0 v0 t0 k a'.
+Proof. unfold frozen_at. intros -> ->. auto. Qed.
+Lemma frozen_at_free k0 v0 t0 k a :
+  frozen_at k0 v0 t0 k a -> owner a <> KRd \/ ~ is_dist_data (data a) -> free_key (frozen_at k0 v0 t0) k.
+Proof.
+  intros Ha Hn a' _ ->. destruct (Ha eq_refl) as (Ho & d & t & Hd & _). exfalso.
+  destruct Hn as [Hn|Hn]; [exact (Hn Ho)|apply Hn; rewrite Hd; do 2 eexists; reflexivity].
+Qed.
+Lemma frozen_at_dist k0 v0 t0 k a d t :
+  frozen_at k0 v0 t0 k a -> owner a = KRd -> data a = DDist d t -> dist_key (frozen_at k0 v0 t0) frozen k d t.
+Proof.
+  intros Ha Ho Hd a' d' t' Ha' S ->. destruct (Ha eq_refl) as (_ & d1 & t1 & Hd1 & Hle). destruct (Ha' eq_refl) as (Ho' & _).
+  rewrite Hd in Hd1. injection Hd1 as <- <-. split; [exact Ho'|]. exists d', t'. split; [reflexivity|].
+  eapply frozen_trans; eassumption.
+Qed.
+Lemma frozen_at_start W k d t : owner (get W k) = KRd -> data (get W k) = DDist d t -> inv (frozen_at k (lv d) t) W.
+Proof. intros Ho Hd k' ->. split; [exact Ho|]. exists d, t. split; [exact Hd|apply frozen_refl]. Qed.
+
+Definition stays_frozen (W' : world) (k : key) (d : dist) (t : list N) : Prop :=
+  owner (get W' k) = KRd /\ exists d' t', data (get W' k) = DDist d' t' /\ frozen (lv d) t (lv d') t'.
+
+Theorem ledger_frozen_exec_data prog i ms h sib W W' k d t :
+  quiet i = true -> exec_data prog i ms h sib W = Ok W' -> owner (get W k) = KRd -> data (get W k) = DDist d t ->
+  stays_frozen W' k d t.
+Proof.
+  intros Hq H Ho Hd.
+  assert (I' : inv (frozen_at k (lv d) t) W')
+    by (eapply (exec_data_inv_quiet (frozen_at k (lv d) t) frozen);
+        [exact (frozen_at_ext k (lv d) t)|exact (frozen_at_free k (lv d) t)|exact (frozen_at_dist k (lv d) t)|fr_hyps ..|exact Hq|exact H
+        |exact (frozen_at_start W k d t Ho Hd)]).
+  exact (I' k eq_refl).
+Qed.
+Theorem ledger_frozen_exec_ixs tx ixs prev W W' k d t :
+  quiet_ixs ixs = true -> exec_ixs tx ixs prev W = Ok W' -> owner (get W k) = KRd -> data (get W k) = DDist d t ->
+  stays_frozen W' k d t.
+Proof.
+  intros Hq H Ho Hd.
+  assert (I' : inv (frozen_at k (lv d) t) W')
+    by (eapply (exec_ixs_inv_quiet (frozen_at k (lv d) t) frozen);
+        [exact (frozen_at_ext k (lv d) t)|exact (frozen_at_free k (lv d) t)|exact (frozen_at_dist k (lv d) t)|fr_hyps ..|exact Hq|exact H
+        |exact (frozen_at_start W k d t Ho Hd)]).
+  exact (I' k eq_refl).
+Qed.
+(* a transaction without settling instructions: the account is closed by the final purge, or nothing of its ledger moved *)
+Theorem ledger_frozen_tx W tx W' ok k d t :
+  quiet_ixs (tx_ixs tx) = true -> exec_tx W tx = (W', ok) -> owner (get W k) = KRd -> data (get W k) = DDist d t ->
+  get W' k = empty_acct \/ stays_frozen W' k d t.
+Proof.
+  intros Hq H Ho Hd.
+  assert (C : W' = W \/ exists W1, inv (frozen_at k (lv d) t) W1 /\ W' = purge W1)
+    by (eapply (exec_tx_cases_quiet (frozen_at k (lv d) t) frozen);
+        [exact (frozen_at_ext k (lv d) t)|exact (frozen_at_free k (lv d) t)|exact (frozen_at_dist k (lv d) t)|fr_hyps ..|exact Hq|exact H
+        |exact (frozen_at_start W k d t Ho Hd)]).
+  destruct C as [->|(W1 & H1 & ->)].
+  - right. split; [exact Ho|]. exists d, t. split; [exact Hd|apply frozen_refl].
+  - unfold stays_frozen. rewrite get_purge. destruct (lamports (get W1 k) =? 0); [left; reflexivity|right; exact (H1 k eq_refl)].
+Qed.
+(* clock, airdrop, mint-to, create-ATA *)
+Theorem ledger_frozen_nontx_op W o k d t :
+  nontx_op o -> owner (get W k) = KRd -> data (get W k) = DDist d t -> stays_frozen (fst (exec_op W o)) k d t.
+Proof.
+  intros Hn Ho Hd.
+  exact (exec_op_nontx_inv _ (frozen_at_ext k (lv d) t) (frozen_at_free k (lv d) t) W o Hn (frozen_at_start W k d t Ho Hd) k eq_refl).
+Qed.
+
+(* ------------------------------------------------------------------------------------------------------------------ *)
 (* 5. a literal reachable world with non-trivial bitmaps                                                              *)
 
 Module LedgerEx.
@@ -649,6 +779,13 @@ Proof. intros Hf HI. exact (ledger_ok_history ops W Hf HI). Qed.
      (wf_lv's w_sub: write-off bit => debt bit.)  NOT DONE: the ghost ledger of a history (NoDup of settled (distribution, leaf) pairs,
      count paid = d_payments_count, d_collected_sol = sum of paid amounts) -- these need an instrumented history and, because an
      account can be closed and its address re-used in the model, the "never closed" side condition.
+   THEOREM 4 (bitmaps and counters change only when a leaf is settled)
+     frozen v t v' t'          the three counters equal, every byte_bit of the remaining data equal (appended bytes are zero), lv_le
+     stays_frozen W' k d t     k still holds a KRd-owned DDist d' t' with frozen (lv d) t (lv d') t'
+     ledger_frozen_exec_data / _exec_ixs     quiet instruction(s) (no PayDebt / WriteOff / DistributeRewards at any CPI depth, any program):
+                               every distribution stays_frozen
+     ledger_frozen_tx          quiet transaction: closed by the final purge \/ stays_frozen;   ledger_frozen_nontx_op (clock, airdrop, mint, ATA)
+     (the exact one-leaf effects of the three settling instructions: Lemmas_RdSpecs2.pay_debt_facts / write_off_facts, Lemmas_RdSpecs5)
    EXAMPLES
      wf_dist_nonvacuous        22-operation honest history from Lemmas_Canon's fixture (3-leaf debt tree, finalize, pay leaf 1, enable
                                write-off, write off leaf 0): all succeed, tail = [3; 1], counts (1, 1, 0), ledger_ok via theorem 1, leaves 0 / 1 closed
